@@ -153,13 +153,14 @@ def check(chk):
 
     # ---- idempotence
     sess = cl.func('Session._create_response_future')
-    plans = [st for st in body_walk(sess) if isinstance(st, ast.Assign) and src(st.targets[0]) == 'spec_exec_plan']
-    if len(plans) != 1 or not isinstance(plans[0].value, ast.IfExp):
+    from ..sem import guarded_creations
+    made, other = guarded_creations(sess, 'spec_exec_plan', 'new_plan')
+    if not made:
         raise AnalysisError('_create_response_future: spec_exec_plan assignment not recognised')
-    ie = plans[0].value
-    atoms = [src(v) for v in (ie.test.values if isinstance(ie.test, ast.BoolOp) and isinstance(ie.test.op, ast.And) else [ie.test])]
-    chk.judge('query.is_idempotent' in atoms and src(ie.orelse) == 'None' and 'new_plan' in src(ie.body), 'C16.idempotent', plans[0],
-              'spec_exec_plan = policy.new_plan(...) if query.is_idempotent and policy else None', 'speculative plan is created without testing is_idempotent: %s' % src(ie.test))
+    for call_, atoms_, st_ in made:
+        chk.judge('query.is_idempotent' in atoms_ and all(isinstance(o, ast.Constant) and o.value is None for o in other), 'C16.idempotent', st_,
+                  'spec_exec_plan = policy.new_plan(...) only when query.is_idempotent (and a policy is set), None otherwise',
+                  'speculative plan is created without testing is_idempotent (known there: %s)' % sorted(a for a in atoms_ if 'query' in a or 'spec' in a))
     rf_call = [n for n in body_walk(sess) if isinstance(n, ast.Call) and src(n.func) == 'ResponseFuture']
     kw = dict((k.arg, src(k.value)) for c in rf_call for k in c.keywords)
     chk.judge(kw.get('speculative_execution_plan') == 'spec_exec_plan', 'C16.idempotent', sess, 'the future receives that plan', 'a different plan object is passed to the future')
